@@ -1,7 +1,7 @@
 """C03 - one optimizer iteration is exactly the Gauss-Newton step."""
 import numpy as np
 
-from .. import graphcheck as GC, graphgen as GG, gs, refgraph as RG, refmodel as R, strategies as S
+from .. import graphcheck as GC, graphgen as GG, gs, hugegraph as HG, refgraph as RG, refmodel as R, strategies as S
 
 ID = "C03"
 RULE = (
@@ -24,6 +24,8 @@ ASSUMPTIONS = ["reference model + AD trusted after self-test", "cases whose refe
 
 @S.composite
 def strategy_(g):
+    if g.rnd.random() < 0.004:
+        return HG.gen(g)
     case = GG.gen(g, n_pose=(2, 8), n_lm=(0, 3), n_loops=(0, 3), conds=(1.0, 1e2, 1e3), noise=(0.05, 0.05), pert=(0.3, 0.3))
     case["n_steps"] = g.choice([1, 1, 2, 3])
     # multi-start: the same edge objects were already used in an earlier Graph with OTHER Vertex objects (same ids) that moved since
@@ -55,10 +57,13 @@ def strategy(tier):
     return strategy_()
 
 
-summarise = GG.summarise
+def summarise(case):
+    return case if case.get("shape") == "huge" else GG.summarise(case)
 
 
 def check(case, ctx):
+    if case.get("shape") == "huge":
+        return HG.check_one_step(case, ctx, "not-the-gauss-newton-step:large-graph")
     GG.classify(case, ctx)
     m = case["meta"]
     feats = set(m["feats"])
